@@ -21,7 +21,7 @@ PROPS = {
                  'models of File / BorrowedFd / HandleData / InodeData / CString / ManuallyDrop (identity) in vx/units/ptsize.py'],
     ),
     'C05': dict(
-        vx_units=['ptops'], kx=[], rx=['pt'],
+        vx_units=['ptops', 'ptstatx'], kx=[], rx=['pt'],
         design_ref='DESIGN.md A.4 / A.6 (D18, D19)',
         not_covered=[
             'the kernel\'s semantics of every system call (what the call yields) and the equality of the exported tree with the tree produced by applying the same calls directly, over histories: only WHICH call is made, on which descriptor, with which arguments, how often, and what is done with its result is decided (bounded differential check: RX group pt)',
